@@ -6,7 +6,10 @@ package stream
 
 // C22 kernel: sendPendingLessOrEqualWatermark(W). What stays pending afterwards are only records of the old pending
 // list with an event time after W (nothing is fabricated, nothing at or below W is kept); every record produced is a
-// record of the old pending list with an event time at or below W.
+// record of the old pending list with an event time at or below W. Cancellation (per pending record i, loop 3 steps): a
+// record is either produced unchanged, or skipped because it was crossed out before, or crossed out together with
+// exactly one *fresh* (not yet crossed out) later retraction of a row that Compares equal column by column — so every
+// retraction cancels at most one record and consolidated multiplicities are preserved.
 //@ func (*InternallyConsistentOutputStreamWrapper).Run$lit1
 //@   assumes forall(q, 0, len(pending), len(pending[q].Values) == len(pending[0].Values))
 //@   loop 1 invariant count: 0 <= $k && $k <= len(pending) && 0 <= afterWatermarkCount && afterWatermarkCount <= $k
@@ -17,6 +20,13 @@ package stream
 //@   loop 3 invariant produced: len(OUT) >= old(len(OUT)) && forall(j, old(len(OUT)), len(OUT), exists(q, 0, len(pending), sameRec(OUT[j], pending[q]) && pending[q].EventTime.ns <= watermark.ns))
 //@   loop 3 invariant frame: forall(q, 0, len(pending), sameRec(pending[q], old(pending[q]))) && len(pending) == old(len(pending)) && forall(j, 0, len(newPending), newPending[j].EventTime.ns > watermark.ns && exists(q, 0, len(pending), sameRec(newPending[j], pending[q])))
 //@   loop 4 invariant inner: len(crossedOut) == len(pending) && i + 1 <= j && forall(q, 0, len(pending), pending[q].EventTime.ns > watermark.ns ==> crossedOut[q]) && 0 <= i && i < len(pending)
+//@   loop 4 invariant unchanged: forall(q, 0, len(crossedOut), crossedOut[q] == outer(crossedOut[q])) && len(OUT) == outer(len(OUT)) && !pending[i].Retraction
+//@   loop 5 invariant unchanged: forall(q, 0, len(crossedOut), crossedOut[q] == outer(crossedOut[q])) && len(OUT) == outer(len(OUT)) && pending[j].Retraction && !crossedOut[j] && i < j && j < len(pending)
+//@   loop 5 invariant prefix: 0 <= $k && $k <= len(pending[i].Values) && forall(c, 0, $k, cmp(pending[i].Values[c], pending[j].Values[c]) == 0)
+//@   loop 3 step mono: forall(q, 0, len(crossedOut), old(crossedOut[q]) ==> crossedOut[q])
+//@   loop 3 step cancel: !old(crossedOut[now(i)]) && crossedOut[i] ==> len(OUT) == old(len(OUT)) && !pending[i].Retraction && exists(p, i + 1, len(pending), !old(crossedOut[p]) && crossedOut[p] && pending[p].Retraction && forall(c, 0, len(pending[i].Values), cmp(pending[i].Values[c], pending[p].Values[c]) == 0) && forall(q, 0, len(crossedOut), q != i && q != p ==> crossedOut[q] == old(crossedOut[q])))
+//@   loop 3 step emit: !crossedOut[i] ==> len(OUT) == old(len(OUT)) + 1 && sameRec(lastOut(), pending[i]) && forall(q, 0, len(crossedOut), crossedOut[q] == old(crossedOut[q]))
+//@   loop 3 step skip: old(crossedOut[now(i)]) ==> len(OUT) == old(len(OUT)) && forall(q, 0, len(crossedOut), crossedOut[q] == old(crossedOut[q]))
 //@   ensures kept: result == nil ==> forall(j, 0, len(pending), pending[j].EventTime.ns > watermark.ns && exists(q, 0, old(len(pending)), sameRec(pending[j], old(pending[q]))))
 //@   ensures produced: forall(j, old(len(OUT)), len(OUT), exists(q, 0, old(len(pending)), sameRec(OUT[j], old(pending[q])) && old(pending[q]).EventTime.ns <= watermark.ns))
 //@   ensures nometa: len(OUTM) == old(len(OUTM))
